@@ -70,6 +70,7 @@ type Sym struct {
 	iter int // loop generation for values redefined in a loop
 	Kids []*Sym
 	F    map[string]*Sym
+	Fn   *ssa.Function // sCall: the callee resolved on the path (static, or through a known function value)
 	key  string
 }
 
@@ -201,6 +202,7 @@ type Event struct {
 	StoreI *ssa.Store
 	Deref  []*Sym // for pointer arguments to tracked locals: the value pointed to at the time of the call
 	Inlined bool  // the callee was interpreted in place (the event records the call and its arguments only)
+	Resolved bool // Callee was resolved from a function value (table entry, closure, method value), not a static call
 }
 
 type pstate struct {
@@ -218,7 +220,11 @@ type pstate struct {
 	escaped map[*ssa.Alloc]bool
 	symeq   map[string][]symRel // key -> syms it is known (not) equal to
 	havoced map[*ssa.BasicBlock]bool
+	gcells  map[*ssa.Global]*Sym            // contents of package-level variables (only while interpreting a package initialiser)
+	maps    map[ssa.Value]map[string]mapEnt // contents of maps made on this path, by MakeMap, by constant key
 }
+
+type mapEnt struct{ k, v *Sym }
 
 type symRel struct {
 	other *Sym
@@ -227,7 +233,7 @@ type symRel struct {
 
 func newState() *pstate {
 	return &pstate{env: map[ssa.Value]*Sym{}, cells: map[*ssa.Alloc]*Sym{}, facts: map[string]bool{}, dyn: map[string]types.Type{},
-		notdyn: map[string][]types.Type{}, eqc: map[string]string{}, neqc: map[string]map[string]bool{}, visits: map[*ssa.BasicBlock]int{}, iters: map[ssa.Value]int{}, escaped: map[*ssa.Alloc]bool{}, symeq: map[string][]symRel{}, havoced: map[*ssa.BasicBlock]bool{}}
+		notdyn: map[string][]types.Type{}, eqc: map[string]string{}, neqc: map[string]map[string]bool{}, visits: map[*ssa.BasicBlock]int{}, iters: map[ssa.Value]int{}, escaped: map[*ssa.Alloc]bool{}, symeq: map[string][]symRel{}, havoced: map[*ssa.BasicBlock]bool{}, maps: map[ssa.Value]map[string]mapEnt{}}
 }
 
 func (s *pstate) clone() *pstate {
@@ -274,6 +280,15 @@ func (s *pstate) clone() *pstate {
 	for k, v := range s.havoced {
 		n.havoced[k] = v
 	}
+	if s.gcells != nil {
+		n.gcells = map[*ssa.Global]*Sym{}
+		for k, v := range s.gcells {
+			n.gcells[k] = v
+		}
+	}
+	for k, v := range s.maps {
+		n.maps[k] = v // entries maps are copied on write
+	}
 	return n
 }
 
@@ -315,6 +330,17 @@ type PathSim struct {
 	Havoc bool
 	// OnInstr, if set, is called before each instruction is interpreted.
 	OnInstr func(fn *ssa.Function, st *pstate, ins ssa.Instruction)
+	// trackGlobals: stores to package-level variables are interpreted (package initialisers only)
+	trackGlobals bool
+	// NoTables: do not resolve initialise-once package-level tables (loads stay symbolic)
+	NoTables bool
+}
+
+func (ps *PathSim) tables() *GlobalModel {
+	if ps.NoTables || ps.trackGlobals || ps.prog == nil || ps.prog.SSA == nil {
+		return nil
+	}
+	return ps.prog.Globals()
 }
 
 func NewPathSim(prog *Program) *PathSim {
@@ -342,6 +368,9 @@ func (ps *PathSim) Run(fn *ssa.Function) []*Summary {
 	}
 	for _, fv := range fn.FreeVars {
 		st.env[fv] = &Sym{K: sFree, V: fv, T: fv.Type()}
+	}
+	if ps.trackGlobals {
+		st.gcells = map[*ssa.Global]*Sym{}
 	}
 	if ps.Seed != nil {
 		ps.Seed(st)
@@ -410,6 +439,9 @@ func (ps *PathSim) exec(fn *ssa.Function, st *pstate, ins ssa.Instruction) {
 		st.env[v] = &Sym{K: sFresh, V: v, T: v.Type(), iter: gen(v)}
 	case *ssa.MakeClosure:
 		s := &Sym{K: sClosure, V: x, T: x.Type(), iter: gen(x)}
+		for _, b := range x.Bindings {
+			s.Kids = append(s.Kids, ps.sym(st, b))
+		}
 		st.env[x] = s
 	case *ssa.MakeInterface:
 		st.env[x] = &Sym{K: sMkIface, A: ps.sym(st, x.X), T: x.Type(), V: x}
@@ -422,7 +454,14 @@ func (ps *PathSim) exec(fn *ssa.Function, st *pstate, ins ssa.Instruction) {
 	case *ssa.FieldAddr:
 		st.env[x] = &Sym{K: sFieldAddr, A: ps.sym(st, x.X), Str: fieldName(x.X.Type(), x.Field), T: x.Type(), V: x}
 	case *ssa.Field:
-		fs := mkField(ps.sym(st, x.X), fieldName(x.X.Type(), x.Field))
+		base := ps.sym(st, x.X)
+		if base.K == sStruct {
+			if v, ok := cellValue(getPath(base, []string{fieldName(x.X.Type(), x.Field)}), x.Type()); ok {
+				st.env[x] = v
+				return
+			}
+		}
+		fs := mkField(base, fieldName(x.X.Type(), x.Field))
 		fs.T, fs.V = x.Type(), x
 		st.env[x] = fs
 	case *ssa.IndexAddr:
@@ -453,6 +492,29 @@ func (ps *PathSim) exec(fn *ssa.Function, st *pstate, ins ssa.Instruction) {
 			addr := ps.sym(st, x.X)
 			if al, path, ok := localPath(addr); ok {
 				if v, ok := loadLocal(st, al, path, x.Type()); ok {
+					st.env[x] = v
+					return
+				}
+				if v, ok := ps.tables().initAlloc(al, path, x.Type()); ok {
+					st.env[x] = v
+					return
+				}
+			}
+			if g, path, ok := globalPath(st, addr); ok {
+				if st.gcells != nil {
+					if c, ok := st.gcells[g]; ok {
+						if v, ok := cellValue(getPath(c, path), x.Type()); ok {
+							st.env[x] = v
+							return
+						}
+					}
+				} else if v, ok := ps.tables().loadGlobal(g, path, x.Type()); ok {
+					st.env[x] = v
+					return
+				}
+			}
+			if al, path, ok := ps.tableElem(st, addr); ok {
+				if v, ok := ps.tables().initAlloc(al, path, x.Type()); ok {
 					st.env[x] = v
 					return
 				}
@@ -505,6 +567,12 @@ func (ps *PathSim) exec(fn *ssa.Function, st *pstate, ins ssa.Instruction) {
 				return
 			}
 		}
+		if ps.trackGlobals && st.gcells != nil {
+			if g, path, ok := globalPath(st, addr); ok {
+				st.gcells[g] = setPath(st.gcells[g], path, val)
+				return
+			}
+		}
 		st.events = append(st.events, Event{In: fn, Store: true, StoreI: x, Args: []*Sym{addr, val}})
 	case *ssa.Call:
 		ps.execCall(fn, st, x, x)
@@ -512,10 +580,67 @@ func (ps *PathSim) exec(fn *ssa.Function, st *pstate, ins ssa.Instruction) {
 		ps.execCall(fn, st, x, nil)
 	case *ssa.Go:
 		ps.execCall(fn, st, x, nil)
-	case *ssa.Lookup, *ssa.Range, *ssa.Next, *ssa.Select, *ssa.SliceToArrayPointer, *ssa.MultiConvert:
+	case *ssa.Lookup:
+		if _, isMap := x.X.Type().Underlying().(*types.Map); isMap {
+			m := ps.sym(st, x.X)
+			ents, ok := st.maps[m.V]
+			if m.K != sFresh {
+				ok = false
+			}
+			if !ok {
+				ents, ok = ps.tables().tableMap(m)
+			}
+			if ok {
+				key := ps.sym(st, x.Index)
+				var val *Sym
+				found, known := false, false
+				if ck, isC := constKeyOf(st, key); isC {
+					known = true
+					if e, has := ents[ck]; has {
+						val, found = e.v, true
+					}
+				} else {
+					// absent when known different from every key
+					all := true
+					for ck := range ents {
+						if !st.neqc[key.Key()][ck] {
+							all = false
+						}
+					}
+					known = all
+				}
+				if known {
+					if !found {
+						val = zeroSym(x.X.Type().Underlying().(*types.Map).Elem())
+					}
+					if x.CommaOk {
+						st.env[x] = &Sym{K: sTuple, Kids: []*Sym{val, boolSym(found)}, T: x.Type()}
+					} else {
+						st.env[x] = val
+					}
+					return
+				}
+			}
+		}
+		st.env[x] = &Sym{K: sOpaque, V: x, T: x.Type(), iter: gen(x)}
+	case *ssa.MapUpdate:
+		m := ps.sym(st, x.Map)
+		if m.K == sFresh {
+			if ck, ok := constKeyOf(st, ps.sym(st, x.Key)); ok {
+				n := map[string]mapEnt{}
+				for k, v := range st.maps[m.V] {
+					n[k] = v
+				}
+				n[ck] = mapEnt{ps.sym(st, x.Key), ps.sym(st, x.Value)}
+				st.maps[m.V] = n
+			} else {
+				delete(st.maps, m.V)
+			}
+		}
+	case *ssa.Range, *ssa.Next, *ssa.Select, *ssa.SliceToArrayPointer, *ssa.MultiConvert:
 		v := ins.(ssa.Value)
 		st.env[v] = &Sym{K: sOpaque, V: v, T: v.Type(), iter: gen(v)}
-	case *ssa.MapUpdate, *ssa.Send, *ssa.RunDefers, *ssa.DebugRef:
+	case *ssa.Send, *ssa.RunDefers, *ssa.DebugRef:
 	default:
 		if v, ok := ins.(ssa.Value); ok {
 			st.env[v] = &Sym{K: sOpaque, V: v, T: v.Type(), iter: gen(v)}
@@ -670,6 +795,10 @@ func (ps *PathSim) execCall(fn *ssa.Function, st *pstate, ci ssa.CallInstruction
 		ev.Args = append(ev.Args, ps.sym(st, com.Value))
 	} else if ev.Callee == nil {
 		ev.FnSym = ps.sym(st, com.Value)
+		if f, _ := ps.funcOfSym(ev.FnSym); f != nil {
+			ev.Callee = f // a function value whose target is known on this path
+			ev.Resolved = true
+		}
 	}
 	for _, a := range com.Args {
 		ev.Args = append(ev.Args, ps.sym(st, a))
@@ -714,7 +843,7 @@ func (ps *PathSim) execCall(fn *ssa.Function, st *pstate, ci ssa.CallInstruction
 				s = &Sym{K: sConst, C: constant.MakeInt64(n), T: val.Type()}
 			}
 		} else {
-			s = &Sym{K: sCall, V: val, T: val.Type(), iter: st.iters[val]}
+			s = &Sym{K: sCall, V: val, T: val.Type(), iter: st.iters[val], Fn: ev.Callee}
 		}
 		st.env[val] = s
 		ev.Res = s
@@ -723,6 +852,51 @@ func (ps *PathSim) execCall(fn *ssa.Function, st *pstate, ci ssa.CallInstruction
 	if ps.OnEvent != nil {
 		ps.OnEvent(st, &st.events[len(st.events)-1])
 	}
+}
+
+// funcOfSym: the function a function-valued sym denotes on this path (a function constant, a closure with its bindings).
+func (ps *PathSim) funcOfSym(s *Sym) (*ssa.Function, []*Sym) {
+	if s == nil {
+		return nil, nil
+	}
+	switch s.K {
+	case sFunc:
+		if f, ok := s.V.(*ssa.Function); ok {
+			return f, nil
+		}
+	case sClosure:
+		if mc, ok := s.V.(*ssa.MakeClosure); ok {
+			if f, ok := mc.Fn.(*ssa.Function); ok {
+				return f, s.Kids
+			}
+		}
+	}
+	return nil, nil
+}
+
+// tableElem: addr = &tbl[i]… where tbl is the slice value of an initialise-once table (backing array made in an initialiser).
+func (ps *PathSim) tableElem(st *pstate, addr *Sym) (*ssa.Alloc, []string, bool) {
+	var path []string
+	for addr != nil && (addr.K == sFieldAddr || addr.K == sIndexAddr) {
+		if addr.K == sFieldAddr {
+			path = append([]string{addr.Str}, path...)
+		} else {
+			c, ok := constKeyOf(st, addr.B)
+			if !ok {
+				return nil, nil, false
+			}
+			path = append([]string{"[" + c + "]"}, path...)
+		}
+		addr = addr.A
+		if addr != nil && addr.K == sSlice && addr.Str == ":" {
+			addr = addr.A
+		}
+	}
+	if addr == nil || addr.K != sFresh {
+		return nil, nil, false
+	}
+	al, ok := addr.V.(*ssa.Alloc)
+	return al, path, ok
 }
 
 // staticLen: the length of an array value, a pointer to an array, or arr[:] of a local array.
@@ -1127,8 +1301,56 @@ func (ps *PathSim) walk(fn *ssa.Function, b *ssa.BasicBlock, start int, pred *ss
 			case *ssa.Panic:
 				ps.out = append(ps.out, &Summary{Fn: fn, Panic: x, St: st, Results: []*Sym{ps.sym(st, x.X)}})
 				return
+			case *ssa.Lookup:
+				// a lookup in an initialise-once table with a key that is not known on this path: one path per entry, one for "absent"
+				if _, isMap := x.X.Type().Underlying().(*types.Map); isMap {
+					m := ps.sym(st, x.X)
+					key := ps.sym(st, x.Index)
+					if ents, ok := ps.tables().tableMap(m); ok && len(ents) > 0 && len(ents) <= 64 {
+						if _, isC := constKeyOf(st, key); !isC {
+							undecided := false
+							for ck := range ents {
+								if !st.neqc[key.Key()][ck] {
+									undecided = true
+								}
+							}
+							if undecided {
+								var cks []string
+								for ck := range ents {
+									cks = append(cks, ck)
+								}
+								sort.Strings(cks)
+								rest := st.clone()
+								for _, ck := range cks {
+									e := ents[ck]
+									eq := &Sym{K: sCmp, Op: token.EQL, A: key, B: &Sym{K: sConst, C: e.k.C, T: e.k.T}}
+									st2 := st.clone()
+									if assume(st2, eq, true) {
+										ps.paths++
+										st2.trail = append(st2.trail, fmt.Sprintf("%s.b%d:key=%s", fn.Name(), b.Index, ck))
+										ps.walk(fn, b, i, nil, st2, depth, ret)
+									}
+									if !assume(rest, eq, false) {
+										rest = nil
+										break
+									}
+								}
+								if rest != nil {
+									rest.trail = append(rest.trail, fmt.Sprintf("%s.b%d:key-absent", fn.Name(), b.Index))
+									ps.walk(fn, b, i, nil, rest, depth, ret)
+								}
+								return
+							}
+						}
+					}
+				}
+				ps.exec(fn, st, ins)
 			case *ssa.Call:
 				callee := x.Common().StaticCallee()
+				var bindings []*Sym
+				if callee == nil && !x.Common().IsInvoke() {
+					callee, bindings = ps.funcOfSym(ps.sym(st, x.Common().Value))
+				}
 				if callee != nil && ps.Inline != nil && depth < ps.MaxDepth && len(callee.Blocks) > 0 && callee != fn && ps.Inline(callee) {
 					com := x.Common()
 					iev := Event{Instr: x, In: fn, Callee: callee, Inlined: true}
@@ -1136,6 +1358,11 @@ func (ps *PathSim) walk(fn *ssa.Function, b *ssa.BasicBlock, start int, pred *ss
 						if k < len(com.Args) {
 							st.env[p] = ps.sym(st, com.Args[k])
 							iev.Args = append(iev.Args, st.env[p])
+						}
+					}
+					for k, fv := range callee.FreeVars {
+						if k < len(bindings) {
+							st.env[fv] = bindings[k]
 						}
 					}
 					iev.Deref = make([]*Sym, len(iev.Args))
